@@ -173,6 +173,14 @@ class ClientAuthenticator:
                     b'ERROR ' + str(e).encode('unicode-escape'))
 
     def _auth_ERROR(self, line):
+        if self.negotiatingUnixFD:
+            # The server accepted us but does not pass file descriptors
+            self.negotiatingUnixFD = False
+            self.unixFDSupport = False
+            self.sendAuthMessage(b'BEGIN')
+            self.authenticated = True
+            return
+
         log.msg(
             'Authentication mechanism failed: '
             + line.decode("ascii", "replace")
